@@ -109,6 +109,23 @@ def run_scenario(scn, want_events=True, twin_fin=None):
     Ytr = np.array(scn["Y"], dtype=int)
     Xu = Z[U].copy() if U else np.zeros((0, Z.shape[1]))
     passI = scn.get("pass_I", scn["mode"] == "pre")
+    if scn.get("prefit"):
+        # object history: the same object was fitted (and used) before on unrelated data; nothing of that may leak
+        r_ = np.random.default_rng(int(scn["prefit"]))
+        Xp = np.abs(r_.normal(size=(7, Z.shape[1]))) + 0.25 + 4.0 * (np.arange(7) % 2)[:, None]     # positive: in every metric's domain
+        try:
+            if scn["mode"] == "pre":
+                model.pre_computed_distance = False
+            if scn["kind"] == "sup":
+                model.fit(Xp, np.arange(7) % 2)
+            else:
+                model.fit(Xp, np.arange(7) % 2, Xp[:2] + 0.5)
+            model.predict(Xp[:3] + 0.1)
+        except Exception as ex:
+            return None, ("exception", "%s: %s" % (type(ex).__name__, str(ex)[:200]))
+        finally:
+            if scn["mode"] == "pre":
+                model.pre_computed_distance = True
     CTX.update(on=True, model=model, snaps=[])
     try:
         try:
@@ -464,6 +481,7 @@ def random_float_scenario(rng, kind="sup", metric="euclidean", n=None, nu=0, nq=
         "Q": list(range(q0, q0 + nq)),
         "pass_I": True if mode == "pre" else rng.random() < 0.5,
         "single_predict": False,
+        "prefit": (rng.randrange(1, 10**6) if rng.random() < 0.2 else 0),
     }
     return scn
 
